@@ -2,6 +2,8 @@ import Driver.Common
 import Scion.Model.GwRouting
 import Scion.Model.Pktcls
 import Scion.Util.GwCodec
+import Scion.Model.GwPolicyText
+import Scion.Util.Hex
 /-! Driver for the gateway routing model (engine `gwrouting`, property C42).  Stateful: `rt`
 installs a routing table, `pol` a policy; the other ops query them. -/
 namespace Driver.Gwrouting
@@ -78,6 +80,49 @@ def decAddr : List String → Option (Addr × List String)
   | f :: v :: r => do pure (⟨← decFam f, ← v.toNat?⟩, r)
   | _ => none
 
+/-! text-level rules for the `ptx` / `ppx` ops -/
+open Scion.GwPolicyText (TRule) in
+def decTAction : String → Option Scion.GwPolicyText.Action
+  | "1" => some .accept
+  | "2" => some .reject
+  | "3" => some .advertise
+  | "4" => some .redistribute
+  | _ => none
+
+def encTAction : Scion.GwPolicyText.Action → String
+  | .accept => "1" | .reject => "2" | .advertise => "3" | .redistribute => "4"
+
+def textOfHex (h : String) : Option (List Char) := do
+  let bs ← Scion.Util.unhex h
+  let s ← String.fromUTF8? (ByteArray.mk bs.toArray)
+  pure s.toList
+
+def hexOfText (cs : List Char) : String := Scion.Util.hexOf (String.ofList cs).toUTF8.toList
+
+def decWords : Nat → List String → Option (List (List Char) × List String)
+  | 0, ws => some ([], ws)
+  | n + 1, w :: r => do
+    let (xs, r') ← decWords n r
+    pure (w.toList :: xs, r')
+  | _ + 1, [] => none
+
+def decTRule : List String → Option (Scion.GwPolicyText.TRule × List String)
+  | a :: fn :: fi :: tn :: ti :: nn :: k :: r => do
+    let act ← decTAction a
+    let (nets, r1) ← decWords (← k.toNat?) r
+    match r1 with
+    | nh :: cm :: r2 =>
+      let cmt ← textOfHex cm
+      pure (⟨act, fn == "1", fi.toList, tn == "1", ti.toList, nn == "1", nets,
+        if nh == "-" then [] else nh.toList, cmt⟩, r2)
+    | _ => none
+  | _ => none
+
+def encTRule (r : Scion.GwPolicyText.TRule) : String :=
+  s!"{encTAction r.action} {boolStr r.fromNeg} {String.ofList r.fromIA} {boolStr r.toNeg} {String.ofList r.toIA} {boolStr r.netNeg} {r.nets.length}" ++
+    String.join (r.nets.map fun n => " " ++ String.ofList n) ++ " " ++
+    (if r.nextHop.isEmpty then "-" else String.ofList r.nextHop) ++ " " ++ hexOfText r.comment
+
 def showVerdict : Verdict → String
   | .invalid => "drop invalid"
   | .fragment => "drop fragment"
@@ -139,6 +184,17 @@ def step (st : St) : List String → St × String
           if st.pol.matchMem ⟨fi, fa⟩ ⟨ti, ta⟩ q a then '1' else '0') ++ ".")
       | _ => (st, "bad-op")
     | _, _, _, _, _ => (st, "bad-op")
+  | "ptx" :: ws =>
+    match decCounted decTRule ws with
+    | some (rs, []) => (st, hexOfText (Scion.GwPolicyText.marshal rs))
+    | _ => (st, "bad-op")
+  | ["ppx", h] =>
+    match textOfHex h with
+    | some t =>
+      match Scion.GwPolicyText.unmarshal t with
+      | some rs => (st, s!"{rs.length}" ++ String.join (rs.map fun r => " " ++ encTRule r))
+      | none => (st, "err")
+    | none => (st, "bad-op")
   | ["adv", fi, fa, ti, ta] =>
     match fi.toNat?, fa.toNat?, ti.toNat?, ta.toNat? with
     | some fi, some fa, some ti, some ta =>
